@@ -15,7 +15,7 @@ FEATURES = ['meta1', 'recreate']
 def configs(tier):
     cfgs = []
     if tier == 'quick':
-        sel = [('<f8', [], 0), ('>i2', [2], 0), ('<c8', [2], 2), ('|u1', [], 2)]
+        sel = [('<f8', [], 0), ('>i2', [2, 3], 0), ('<c8', [2], 2), ('|u1', [], 2)]
         for dt, trail, n0 in sel:
             cfgs.append({'dtype': dt, 'trail': trail, 'start_len': n0, 'Lmax': 2,
                          'oracles': ['format'], 'features': FEATURES})
